@@ -321,7 +321,7 @@ pub fn run(ctx: &Ctx) -> i32 {
     rep.add(out);
     rep.exhaustive = Some(false);
     rep.extra.insert("exhaustive_history_length".into(), json!(ctx.tier.pick(3, 4)));
-    let cases = ctx.tier.pick(600, 12000);
+    let cases = ctx.tier.pick(2_000, 30_000);
     let refs2 = Refs::new(&dir);
     let out = run_tapes("C11", ctx.seed, ctx.threads, cases, 900, |tape, stats, counting| {
         let g = Gates::with_off(off.clone());
